@@ -26,27 +26,33 @@ def _one(args):
     prop, seed, src_root = args
     from .cli import evaluate
 
-    rel = seed["file"]
-    path = os.path.join(src_root, rel)
-    try:
-        with open(path) as fh:
-            text = fh.read()
-    except OSError:
-        return (seed["id"], "skipped", "file absent")
-    cnt = text.count(seed["old"])
-    if cnt == 0 or (seed.get("count", 1) != "all" and cnt != seed.get("count", 1)):
-        return (seed["id"], "skipped", f"anchor occurs {cnt}x")
-    new_text = text.replace(seed["old"], seed["new"])
-    try:
-        ast.parse(new_text)
-    except SyntaxError as e:
-        return (seed["id"], "failed", f"mutant does not parse: {e}")
+    edits = seed.get("edits") or [(seed["file"], seed["old"], seed["new"])]
+    texts = {}
+    for rel, old, new in edits:
+        path = os.path.join(src_root, rel)
+        if rel not in texts:
+            try:
+                with open(path) as fh:
+                    texts[rel] = fh.read()
+            except OSError:
+                return (seed["id"], "skipped", "file absent")
+        text = texts[rel]
+        cnt = text.count(old)
+        if cnt == 0 or (seed.get("count", 1) != "all" and cnt != seed.get("count", 1)):
+            return (seed["id"], "skipped", f"anchor occurs {cnt}x in {rel}")
+        texts[rel] = text.replace(old, new)
+    for rel, new_text in texts.items():
+        try:
+            ast.parse(new_text)
+        except SyntaxError as e:
+            return (seed["id"], "failed", f"mutant does not parse: {e}")
     tmp = tempfile.mkdtemp(prefix="nqsa-st-")
     try:
         shutil.copytree(os.path.join(src_root, "netqasm"), os.path.join(tmp, "netqasm"),
                         ignore=shutil.ignore_patterns("__pycache__", "*.pyc"))
-        with open(os.path.join(tmp, rel), "w") as fh:
-            fh.write(new_text)
+        for rel, new_text in texts.items():
+            with open(os.path.join(tmp, rel), "w") as fh:
+                fh.write(new_text)
         ctx = evaluate(prop, "quick", root=tmp)
         violations, known = report.classify(ctx)
         if seed.get("expect") is None:
